@@ -1,7 +1,7 @@
 (* RecordLemmas.v — features keep denoting the same nucleotides under rotation
    (C13), slicing and concatenation (C08) and flipping (C14). *)
 From MV Require Import Base RotLemmas Record.
-From Coq Require Import ZifyBool ZifyNat.
+From Coq Require Import ZifyBool ZifyNat Permutation.
 Ltac Zify.zify_post_hook ::= Z.to_euclidean_division_equations.
 Open Scope Z_scope.
 
@@ -216,4 +216,227 @@ Proof.
   cbn. intros H. split; [reflexivity|]. exists sg.
   apply andb_prop in H. destruct H as [Ha Hb].
   apply Z.eqb_eq in Ha, Hb. now subst.
+Qed.
+
+(* ====================================================================== *)
+(* reverse complement (C14)                                               *)
+(* ====================================================================== *)
+
+Lemma compl_involutive c : compl (compl c) = c.
+Proof. destruct c; reflexivity. Qed.
+
+Lemma compl_l_involutive l : compl_l (compl_l l) = l.
+Proof. destruct l as [c u]. unfold compl_l. cbn. now rewrite compl_involutive. Qed.
+
+Lemma rc_involutive s : rc (rc s) = s.
+Proof.
+  unfold rc. rewrite map_rev, rev_involutive, map_map.
+  rewrite <- (map_id s) at 2. apply map_ext. apply compl_l_involutive.
+Qed.
+
+Lemma rc_length s : length (rc s) = length s.
+Proof. unfold rc. now rewrite rev_length, map_length. Qed.
+
+Lemma rc_app a b : rc (a ++ b) = rc b ++ rc a.
+Proof. unfold rc. now rewrite map_app, rev_app_distr. Qed.
+
+Lemma rev_rotr {A} k (s : list A) : rev (rotr k s) = rotl k (rev s).
+Proof.
+  destruct s as [|x s0]; [reflexivity|]. set (s := x :: s0).
+  rewrite <- rot_track_pinned_is_rotl. unfold rotr, rot_track_pinned.
+  rewrite rev_length. set (n := length s).
+  assert (Hn : (0 < Z.of_nat n)%Z) by (subst n s; cbn [length]; lia).
+  pose proof (Z.mod_pos_bound k (Z.of_nat n) Hn) as Hb.
+  set (i := Z.to_nat (k mod Z.of_nat n)).
+  assert (Hi : (i <= n)%nat) by (subst i; lia).
+  rewrite rev_app_distr, skipn_rev, firstn_rev. fold n.
+  replace (n - (n - i))%nat with i by lia. reflexivity.
+Qed.
+
+(* reverse-complementing commutes with rotation: the reverse complement of a right
+   rotation is the left rotation of the reverse complement *)
+Lemma rc_rotr k s : rc (rotr k s) = rotl k (rc s).
+Proof. unfold rc. rewrite <- rotr_map. apply rev_rotr. Qed.
+
+Lemma flip_strand_involutive sg : flip_strand (flip_strand sg) = sg.
+Proof. destruct sg; reflexivity. Qed.
+
+Lemma flip_part_involutive n p : flip_part n (flip_part n p) = p.
+Proof.
+  destruct p as [a b sg]. unfold flip_part. cbn. rewrite flip_strand_involutive.
+  f_equal; lia.
+Qed.
+
+Lemma forallb_nostrand_flip n l :
+  forallb (fun p => strand_eqb (pstrand p) NoStrand) (map (flip_part n) l) =
+  forallb (fun p => strand_eqb (pstrand p) NoStrand) l.
+Proof.
+  induction l as [|p l IH]; [reflexivity|]. cbn. rewrite IH. f_equal.
+  destruct (pstrand p); reflexivity.
+Qed.
+
+Lemma flip_loc_involutive n l : flip_loc n (flip_loc n l) = l.
+Proof.
+  destruct l as [|p [|q l]]; [reflexivity| |].
+  - cbn. now rewrite flip_part_involutive.
+  - unfold flip_loc at 2.
+    destruct (forallb _ (p :: q :: l)) eqn:E.
+    + assert (Hlen : exists x y r, map (flip_part n) (rev (p :: q :: l)) = x :: y :: r).
+      { destruct (map (flip_part n) (rev (p :: q :: l))) as [|x [|y r]] eqn:E2; eauto;
+          apply (f_equal (@length part)) in E2; rewrite map_length, rev_length in E2;
+          cbn in E2; lia. }
+      destruct Hlen as (x & y & r & Hxy). rewrite Hxy. unfold flip_loc. rewrite <- Hxy.
+      rewrite forallb_nostrand_flip.
+      assert (Hr : forallb (fun p0 => strand_eqb (pstrand p0) NoStrand) (rev (p :: q :: l)) = true).
+      { rewrite forallb_forall in *. intros z Hz. apply E. now apply in_rev. }
+      rewrite Hr. rewrite <- map_rev, rev_involutive, map_map.
+      rewrite <- (map_id (p :: q :: l)) at 2. apply map_ext. apply flip_part_involutive.
+    + cbn [map]. unfold flip_loc.
+      change (flip_part n p :: flip_part n q :: map (flip_part n) l) with (map (flip_part n) (p :: q :: l)).
+      rewrite forallb_nostrand_flip, E. rewrite map_map.
+      rewrite <- (map_id (p :: q :: l)) at 2. apply map_ext. apply flip_part_involutive.
+Qed.
+
+Lemma zmod_mirror n y : 0 < n -> (n - 1 - y) mod n = n - 1 - y mod n.
+Proof.
+  intros Hn. pose proof (Z.div_mod y n ltac:(lia)) as Hy.
+  pose proof (Z.mod_pos_bound y n Hn) as Hb.
+  apply (zmod_canon _ _ _ (- (y / n))); lia.
+Qed.
+
+(* positions covered after the flip: the mirror images, in reverse order *)
+Lemma covers_flip_part n p :
+  0 < n ->
+  covers_part n (flip_part n p) = rev (map (fun c => n - 1 - c) (covers_part n p)).
+Proof.
+  intros Hn. destruct p as [a b sg]. unfold covers_part, flip_part. cbn [pstart pend].
+  unfold zrange. replace (n - a - (n - b)) with (b - a) by lia.
+  set (m := Z.to_nat (b - a)).
+  rewrite !map_map. rewrite <- map_rev.
+  assert (Hrev : rev (seq 0 m) = map (fun i => (m - 1 - i)%nat) (seq 0 m)).
+  { clear. induction m as [|m IH]; [reflexivity|].
+    rewrite seq_S at 1. rewrite rev_app_distr. cbn [rev app Nat.add].
+    cbn [seq map]. f_equal; [f_equal; lia|].
+    rewrite <- seq_shift, map_map. rewrite IH. apply map_ext_in.
+    intros i Hi. apply in_seq in Hi. lia. }
+  rewrite Hrev, map_map. apply map_ext_in. intros i Hi. apply in_seq in Hi.
+  rewrite <- zmod_mirror by exact Hn. f_equal. subst m. lia.
+Qed.
+
+Lemma nth_rc s (x : Z) :
+  0 <= x < zlen s ->
+  nth (Z.to_nat (zlen s - 1 - x)) (rc s) dN = compl_l (nth (Z.to_nat x) s dN).
+Proof.
+  unfold zlen. intros Hx. unfold rc.
+  rewrite rev_nth by (rewrite map_length; lia). rewrite map_length.
+  replace (length s - S (Z.to_nat (Z.of_nat (length s) - 1 - x)))%nat with (Z.to_nat x) by lia.
+  change dN with (compl_l dN) at 1. apply map_nth.
+Qed.
+
+Lemma letters_flip s p :
+  s <> [] ->
+  letters_at dN (rc s) (covers_part (zlen s) (flip_part (zlen s) p)) =
+  rc (letters_at dN s (covers_part (zlen s) p)).
+Proof.
+  intros Hs.
+  assert (Hn : 0 < zlen s) by (unfold zlen; destruct s; [congruence|cbn [length]; lia]).
+  rewrite covers_flip_part by exact Hn. unfold letters_at, rc.
+  rewrite map_rev, !map_map. f_equal. apply map_ext_in. intros c Hc.
+  apply nth_rc. eapply covers_part_bound; eauto.
+Qed.
+
+(* a stranded feature still reads the same sequence along its own (now opposite)
+   strand; an unstranded one covers the reverse complement of what it covered *)
+Theorem flip_part_denote s p :
+  s <> [] ->
+  denote_part (rc s) (flip_part (zlen s) p) =
+  match pstrand p with NoStrand => rc (denote_part s p) | _ => denote_part s p end.
+Proof.
+  intros Hs. unfold denote_part.
+  replace (zlen (rc s)) with (zlen s) by (unfold zlen; now rewrite rc_length).
+  rewrite letters_flip by exact Hs.
+  destruct p as [a b sg]. cbn [pstrand flip_part].
+  destruct sg; cbn [flip_strand]; try reflexivity.
+  now rewrite rc_involutive.
+Qed.
+
+Lemma flip_part_strand n p : pstrand (flip_part n p) = flip_strand (pstrand p).
+Proof. reflexivity. Qed.
+
+(* flipping commutes with rotation on the covered positions:
+   flip after >> idx  =  << idx after flip *)
+Theorem flip_rot_covers n idx p :
+  0 < n ->
+  covers_part n (flip_part n (rot_part idx n p)) =
+  covers_part n (rot_part (- idx) n (flip_part n p)).
+Proof.
+  intros Hn. rewrite covers_flip_part, !rot_part_covers, covers_flip_part by exact Hn.
+  rewrite map_rev. f_equal. rewrite !map_map. apply map_ext_in. intros c Hc.
+  pose proof (covers_part_bound _ _ _ Hn Hc) as Hb.
+  rewrite <- zmod_mirror by exact Hn. f_equal. lia.
+Qed.
+
+(* the stable sort by start keeps the multiset of features *)
+Lemma insert_by_start_perm f l : Permutation (insert_by_start f l) (f :: l).
+Proof.
+  induction l as [|g l IH]; [constructor; constructor|].
+  cbn [insert_by_start]. destruct (_ <=? _).
+  - eapply perm_trans; [apply perm_skip, IH|apply perm_swap].
+  - apply Permutation_refl.
+Qed.
+
+Lemma sort_by_start_perm l : Permutation (sort_by_start l) l.
+Proof.
+  unfold sort_by_start.
+  assert (H : forall acc, Permutation (fold_left (fun a f => insert_by_start f a) l acc) (l ++ acc)).
+  { induction l as [|f l IH]; intros acc; [apply Permutation_refl|].
+    cbn [fold_left]. eapply perm_trans; [apply IH|].
+    eapply perm_trans; [apply Permutation_app_head, insert_by_start_perm|].
+    apply Permutation_sym, Permutation_middle. }
+  specialize (H []). now rewrite app_nil_r in H.
+Qed.
+
+Lemma rc_record_seq r : rseq (rc_record r) = rc (rseq r).
+Proof. reflexivity. Qed.
+
+(* the feature table of the reverse complement is, up to the order chosen by the
+   sort, the table of flipped features: nothing is lost or invented *)
+Theorem rc_record_feats_perm r :
+  Permutation (rfeats (rc_record r)) (map (flip_feature (zlen (rseq r))) (rfeats r)).
+Proof. apply sort_by_start_perm. Qed.
+
+Lemma flip_feature_involutive n f : flip_feature n (flip_feature n f) = f.
+Proof. destruct f as [s t q l]. unfold flip_feature. cbn. now rewrite flip_loc_involutive. Qed.
+
+(* applying it twice gives back the original sequence and the original features *)
+Theorem rc_record_twice r :
+  rseq (rc_record (rc_record r)) = rseq r /\
+  Permutation (rfeats (rc_record (rc_record r))) (rfeats r).
+Proof.
+  split; [cbn; apply rc_involutive|].
+  eapply perm_trans; [apply rc_record_feats_perm|].
+  rewrite rc_record_seq.
+  replace (zlen (rc (rseq r))) with (zlen (rseq r)) by (unfold zlen; now rewrite rc_length).
+  eapply perm_trans.
+  - apply Permutation_map. apply rc_record_feats_perm.
+  - rewrite map_map. rewrite <- (map_id (rfeats r)) at 2.
+    erewrite map_ext; [apply Permutation_refl|]. apply flip_feature_involutive.
+Qed.
+
+(* denotation of a whole location under the flip, for single-strand locations *)
+Theorem flip_loc_denote_stranded s l sg :
+  s <> [] -> sg <> NoStrand -> Forall (fun p => pstrand p = sg) l ->
+  denote (rc s) (flip_loc (zlen s) l) = denote s l.
+Proof.
+  intros Hs Hsg Hall.
+  assert (Hmap : denote (rc s) (map (flip_part (zlen s)) l) = denote s l).
+  { unfold denote. rewrite map_map. f_equal. apply map_ext_in. intros p Hp.
+    rewrite flip_part_denote by exact Hs.
+    rewrite Forall_forall in Hall. rewrite (Hall p Hp). destruct sg; congruence. }
+  destruct l as [|p [|q l]]; [reflexivity|exact Hmap|].
+  unfold flip_loc.
+  replace (forallb (fun p0 => strand_eqb (pstrand p0) NoStrand) (p :: q :: l)) with false; [exact Hmap|].
+  symmetry. cbn [forallb].
+  assert (Hp : pstrand p = sg) by (inversion Hall; assumption).
+  rewrite Hp. destruct sg; try congruence; reflexivity.
 Qed.
